@@ -46,6 +46,14 @@ def rows_lit(rows):
     return '[%s]' % '; '.join(qlist([ps.fr(x['q']) for x in row]) for row in rows)
 
 
+def var_opts(c, vi):
+    """fd options of wrt variable vi: the case's global options unless 'varopts' overrides them"""
+    vo = (c.get('varopts') or [None] * len(c['invars']))[vi]
+    if vo is None:
+        return {'form': c['form'], 'step_calc': c['step_calc'], 'step': c['step'], 'minimum_step': c.get('minimum_step')}
+    return vo
+
+
 # ----------------------------------------------------------------------------- exactness simulation
 
 def simulate_exact(c):
@@ -68,15 +76,17 @@ def simulate_exact(c):
                 for v in env[nz:]:
                     ps._chk(v[1] * (1 / step))
             return True
-        mn = ps.fr(c['minimum_step']) if c.get('minimum_step') is not None else DEFAULT_MIN
-        ds, cs_, cur = ps.TRUE_STENCIL[c['form']]
         o = 0
-        for name, size in c['invars']:
+        for vi, (name, size) in enumerate(c['invars']):
+            vo = var_opts(c, vi)
+            step = ps.fr(vo['step'])
+            mn = ps.fr(vo['minimum_step']) if vo.get('minimum_step') is not None else DEFAULT_MIN
+            ds, cs_, cur = ps.TRUE_STENCIL[vo['form']]
             v = z[o:o + size]
-            hs = ps.spec_steps(c['step_calc'], step, mn, v)
+            hs = ps.spec_steps(vo['step_calc'], step, mn, v)
             if hs is None:
                 return False
-            if c['step_calc'] in ('rel', 'rel_avg'):
+            if vo['step_calc'] in ('rel', 'rel_avg'):
                 ps._chk(sum(abs(x) for x in v) / size)
                 ps._chk(step * sum(abs(x) for x in v) / size)
             for k in range(size):
@@ -211,6 +221,19 @@ def gen_jac(rng, exact_bias=True):
                         and rng.random() < 0.5)
     if c['colored'] and method == 'fd':
         c['minimum_step'] = None
+    if c['colored'] and method == 'fd' and level == 'explicit' and nvars >= 2 and rng.random() < 0.6:
+        # partial colouring: only the first ncol variables are coloured; the others are declared LAST with the
+        # same method but different options (step, form, step_calc)
+        ncol = rng.randrange(1, nvars)
+        c['ncolored'] = ncol
+        vopts = [None] * nvars
+        for vi in range(ncol, nvars):
+            sgn = 1
+            vopts[vi] = {'form': rng.choice(FORMS), 'step_calc': rng.choice(['abs', 'abs', 'rel_avg', 'rel_element']),
+                         'step': jq(sgn * Fraction(1, 2 ** rng.randrange(1, 9))), 'minimum_step': None}
+            if vopts[vi]['step'] == c['step'] and vopts[vi]['form'] == c['form']:
+                vopts[vi]['step'] = jq(ps.fr(c['step']) / 4)
+        c['varopts'] = vopts
     c['exact'] = (not floaty) and simulate_exact(c)
     return c
 
@@ -344,8 +367,17 @@ class C12(Spec):
         else:
             y0 = '(vzero (sel_entries sel x))'
             base = '(sysfun stages sel y0 x)'
-        parts = ['(fd_jac_opts stages sel y0 base x "%s" None "%s" %s %s [%s])' % (
-            c['form'], c['step_calc'], qlit(ps.fr(c['step'])), qlit(mn), '; '.join(vars_))]
+        if c.get('varopts'):
+            vt = []
+            for vi, vv in enumerate(vars_):
+                vo = var_opts(c, vi)
+                vmn = ps.fr(vo['minimum_step']) if vo.get('minimum_step') is not None else DEFAULT_MIN
+                vt.append('(%s, (("%s", "%s"), (%s, %s)))' % (vv, vo['form'], vo['step_calc'], qlit(ps.fr(vo['step'])),
+                                                             qlit(vmn)))
+            parts = ['(fd_jac_varopts stages sel y0 base x [%s])' % '; '.join(vt)]
+        else:
+            parts = ['(fd_jac_opts stages sel y0 base x "%s" None "%s" %s %s [%s])' % (
+                c['form'], c['step_calc'], qlit(ps.fr(c['step'])), qlit(mn), '; '.join(vars_))]
         if groups is not None:
             parts.append('(fd_jac_colored_opts stages sel y0 base x "%s" None %s %s %s %s)' % (
                 c['form'], qlit(ps.fr(c['step'])), qlit(mn), vars_[0], groups_term(groups)))
